@@ -58,9 +58,20 @@ def run_dmrg(ctx, H, psi, two, nsweeps, numiter, tol_split, detail, label):
     return np.asarray(en), local
 
 
-def dmrg_case(ctx, idx, rng):
+def symmetric_sector_case(ctx, idx, rng):
+    """Directed runs in sectors with an INTERNAL symmetry (total S^z = 0 of the XXZ chains: spin flip; half filling of the Bose chain is not symmetric and serves
+    as control): once the state has converged, a local start vector can be exactly orthogonal to the ground state of a perturbed local problem by symmetry.
+    Krylov dimension at or above the local dimension, three to five sweeps, zero split tolerance; every C10 relation of the runs workload is demanded."""
+    name = ('xxz', 'xxz1', 'xxz', 'bose3')[(idx // 2) % 4]
+    L = {'xxz': int(rng.choice([4, 4, 6])), 'xxz1': int(rng.integers(3, 6)), 'bose3': int(rng.integers(3, 6))}[name]
+    dmrg_case(ctx, idx, rng, force={'src': name, 'L': L, 'qL': 0 if name != 'bose3' else L // 2, 'prof': str(rng.choice(['max', 'random'])), 'nsweeps': int(rng.integers(3, 6))})
+
+
+def dmrg_case(ctx, idx, rng, force=None):
     two = bool(idx % 2)
     src = str(rng.choice(['xxz', 'xxz1', 'bose3', 'ising', 'fermi', 'hermitian', 'nn-pattern', 'nn-pattern']))
+    if force:
+        src = force['src']
     if src == 'nn-pattern':
         # hand-built automaton-form MPO with site-dependent couplings (staggered A-B-A-B, impurity, period 3, blocks, random, uniform)
         d = int(rng.choice([2, 3]))
@@ -79,9 +90,13 @@ def dmrg_case(ctx, idx, rng):
         while d ** lmax > 512:
             lmax -= 1
         L = int(rng.integers(2, lmax + 1))
+        if force:
+            L = force['L']
         H = gen.model(src, L, gen.generic_params(rng))
     prof = str(rng.choice(['random', 'random', 'one', 'max', 'over']))
-    if idx % 9 == 8 and len(H.qd) ** L <= 256:
+    if force:
+        prof = force['prof']
+    if idx % 9 == 8 and len(H.qd) ** L <= 256 and not force:
         # start from an EXACT eigenstate of H (ground state or an excited one; quantum numbers switched off on a copy of the operator):
         # every local Krylov space is one-dimensional (breakdown at the first iteration); the energy can only stay or go down
         H = copy.deepcopy(H).zero_qnumbers()
@@ -93,7 +108,7 @@ def dmrg_case(ctx, idx, rng):
         if prof == 'eigenstate':
             psi = psi0
             break
-        psi = gen.rand_mps(rng, H.qd, L, prof, Dmax=4, kind=str(rng.choice(['complex', 'real'])))
+        psi = gen.rand_mps(rng, H.qd, L, prof, Dmax=4 if not force else 6, kind=str(rng.choice(['complex', 'real'])), qL=None if not force else force['qL'])
         if np.linalg.norm(refs.dense_state(psi.A)) > 1e-8:
             break
         prof = 'max'
@@ -104,6 +119,15 @@ def dmrg_case(ctx, idx, rng):
     nsweeps = int(rng.integers(1, 5)) if idx % 16 != 7 else int(rng.choice([10, 16, 17, 33]))      # every 16th case: many sweeps in one call
     numiter = int(rng.choice([2, 3, 5, 25]))
     tol_split = 0.0 if (not two or rng.random() < 0.7) else float(rng.choice([1e-8, 1e-3]))
+    conv = ''
+    if (idx % 7 in (3, 4) or force) and prof != 'eigenstate' and len(H.qd) ** L <= (256 if not force else 1024):
+        # runs that CONVERGE and keep sweeping: Krylov dimension at or above the local dimension of the first and last pairs, three to five sweeps, zero split
+        # tolerance -- from the second sweep on every local problem starts from a (nearly) converged state, whose sector blocks carry arbitrary relative signs
+        dloc = len(H.qd) ** 2 * max(psi.bond_dims[min(2, L)], 1)
+        numiter = int(dloc + int(rng.integers(0, 12)))
+        nsweeps = int(rng.integers(3, 6))
+        tol_split = 0.0
+        conv = '+converging' + ('+symmetric-sector' if force else '')
     mH = refs.dense_operator(H.A)
     nH = max(np.linalg.norm(mH, 2), 1.0)
     v_in = refs.dense_state(psi.A)
@@ -112,7 +136,7 @@ def dmrg_case(ctx, idx, rng):
     D_in = list(psi.bond_dims)
     ends = (psi.qD[0].copy(), psi.qD[-1].copy())
     integ = 'twosite' if two else 'singlesite'
-    ctx.case((integ, src, f'L{L}', prof, f'numiter{numiter}', f'sweeps{min(nsweeps, 2)}', 'tol_split0' if tol_split == 0 else 'tol_split>0'),
+    ctx.case((integ, src, f'L{L}', prof + conv, f'numiter{numiter}' if not conv else 'numiter>=local-dim', f'sweeps{min(nsweeps, 2)}', 'tol_split0' if tol_split == 0 else 'tol_split>0'),
              sample={'algorithm': integ, 'model': src, 'L': L, 'qD': psi.qD, 'sweeps': nsweeps, 'numiter': numiter, 'tol_split': tol_split},
              info={'algorithm': integ, 'model': src, 'L': L, 'qd': H.qd, 'qD': psi.qD, 'A': psi.A, 'H_A': H.A, 'H_qD': H.qD, 'sweeps': nsweeps, 'numiter': numiter, 'tol_split': tol_split})
     detail = ctx.cur_info
@@ -290,6 +314,7 @@ SPEC = {
                  'trace.local-steps-observed'],
     'workloads': [
         Workload('runs', dmrg_case, quick=780, thorough=64000),
+        Workload('symmetric-sectors', symmetric_sector_case, quick=160, thorough=8000),
         Workload('large', large_case, quick=60, thorough=4000),
         Workload('complete', complete_case, quick=len(CASES), thorough=len(CASES) * 30),
     ],
